@@ -7,6 +7,7 @@ code->spec: final tables of compute() runs over configuration variants and synth
             every variant; the set of reconstructions is one stateful trace validated by TraceResultsFile.tla
 """
 import os
+import sys
 import shutil
 import tempfile
 
@@ -74,6 +75,12 @@ def variant_configs(rng, n):
             "simulation.ionosphere.total_electron_error": float(rng.choice([0.1, 0.5])),
             "simulation.max_azimuth_angle": float(np.radians(rng.choice([360.0, 180.0]))),
         }
+        if i % 4 == 1:
+            # unit-bearing values that print in scientific notation in the header (a longitude of sin(pi), micro-radian angles, a sub-Hz band edge)
+            spec["det_lon"] = float(np.sin(np.pi))
+            spec["det_lat"] = 1e-6
+            spec["set"].update({"detector.radio.low_frequency": 5e-5, "simulation.max_azimuth_angle": float(np.radians(360.0)),
+                                "detector.sun_moon.moon_alt_cut": 3.0e-7})
         out.append(spec)
     return out
 
@@ -282,6 +289,31 @@ def synthetic_events():
                                "recon": [[a, _val(b, {}, ang(a))] for a, b in fr.items() if b is not None], "_m": meta})
                 except Exception as ex:
                     ev.append({"kind": "recon", "ok": False, "cfg": [], "recon": [], "_m": dict(meta, error=repr(ex)[:300])})
+            # Target mode through the application (a Time column): the file must hold, bit for bit, the table compute() returns for the seed
+            tcfg = pipeline.make_config({"mode": "Target", "thrown": 210, "optical": False, "set": {"title": "cli target"}})
+            ttoml = os.path.join(d, "clit.toml")
+            create_toml(ttoml, tcfg)
+            tout = os.path.join(d, "clit.fits")
+            np.random.seed(4242)
+            with dask.config.set(scheduler="synchronous"):
+                res = CliRunner().invoke(cli, ["run", ttoml, "-o", tout])
+            import importlib, io, contextlib
+            comp = importlib.import_module("nuspacesim.compute")
+            comp = comp if hasattr(comp, "compute") and callable(getattr(comp, "compute")) and not callable(comp) else sys.modules["nuspacesim.compute"]
+            np.random.seed(4242)
+            with dask.config.set(scheduler="synchronous"), contextlib.redirect_stdout(io.StringIO()):
+                tsim = comp.compute(config_from_toml(ttoml), verbose=False)
+            if res.exit_code == 0 and os.path.exists(tout):
+                tback = Table.read(tout, format="fits", astropy_native=True)
+                toks = {}
+                cols = list(tsim.colnames)
+                ev.append({"kind": "file", "cols": cols, "colsBack": list(tback.colnames),
+                           "dig": [toks.setdefault(pipeline.col_digest(tsim[c]), len(toks) + 1) for c in cols],
+                           "digBack": [toks.setdefault(pipeline.col_digest(tback[c]), len(toks) + 1) if c in tback.colnames else 0 for c in cols],
+                           "meta": [], "metaBack": [],
+                           "_m": {"table": "file written by `nuspacesim run` (Target mode) vs the table compute() returns for the same seed", "rows": len(tsim)}})
+            else:
+                ev.append({"kind": "recon", "ok": False, "cfg": [], "recon": [], "_m": {"cli_run": "target", "exit_code": res.exit_code, "exception": repr(res.exception)[:200]}})
         except Exception as ex:
             ev.append({"kind": "recon", "ok": False, "cfg": [], "recon": [], "_m": {"cli_run": "setup failed", "error": repr(ex)[:300]}})
         for name, t in cases:
